@@ -4,7 +4,6 @@
 //   * verifier-only ghost state (life-cycle automaton, callback log, emulated unwinding flag),
 //   * probe payload types used by the contract harnesses,
 //   * the harnesses that need crate-root privacy (collect, __collect, trace_counting, ...).
-#![allow(dead_code, unused_imports, unused_macros, unused_variables, clippy::all)]
 
 // ------------------------------------------------------------------------------------------------
 // TLS shim: same surface as std::thread::LocalKey for what the crate uses (`with`, `try_with`),
@@ -60,10 +59,10 @@ macro_rules! rust_cc_thread_local {
 }
 pub(crate) use rust_cc_thread_local;
 
-pub(crate) mod ghost;
-pub(crate) mod probes;
+pub(crate) mod ghost { include!(concat!(env!("VERIF_KANI_DIR"), "/ghost.rs")); }
+pub(crate) mod probes { include!(concat!(env!("VERIF_KANI_DIR"), "/probes.rs")); }
 pub(crate) use ghost::{unwind_mark, unwound};
-mod lib_proofs;
+pub(crate) mod lib_proofs { include!(concat!(env!("VERIF_KANI_DIR"), "/lib_proofs.rs")); }
 
 /// Pipeline canary: a deliberately false obligation that MUST be reported as FAILURE on every run;
 /// if it is not, the driver refuses to report success (vacuity guard, DESIGN 2.3 step 4).
